@@ -46,6 +46,16 @@ def gen_file(r, bsv, idx, big_ok):
             segs.append([pos, ln])
             pos += ln + r.choice([65536, 3 * 4096, 1 << 18])
         e["size"], e["segs"] = pos if r.random() < 0.5 else segs[-1][0] + segs[-1][1], segs
+        if r.random() < 0.4:
+            # logically touching extents (alternating written / preallocated blocks) followed by a hole and a tail
+            nblk = r.choice([34, 65, 70, 100])
+            ph = r.randrange(2)
+            segs = [[k * 4096, 4096] for k in range(nblk) if k % 2 == ph]
+            tail = nblk * 4096 + (4 << 20)
+            segs.append([tail, r.choice([1, 4096, 5000])])
+            e["falloc"] = [[0, nblk * 4096]]
+            e["sync"] = True
+            e["size"], e["segs"] = tail + segs[-1][1], segs
     elif kind == "allhole":
         e["size"] = r.choice([1 << 20, (3 << 20) + 17, 10 << 20])
         e["segs"] = []
@@ -86,10 +96,13 @@ def gen_cases(tier, seed):
         workers = r.choice([1, 2, 3, 4, 8, 16])
         args = ["--driver", driver, "-w", str(workers), "--reflink", r.choice(["auto", "never"])]
         args += ["--no-progress"] if bsv is None else ["--block-size", str(bsv)]
-        if r.random() < 0.15:
-            args.append("--fsync")
+        for o, pr in (("--fsync", 0.15), ("--no-perms", 0.1), ("--no-timestamps", 0.1), ("--ownership", 0.1), ("-L", 0.05), ("--gitignore", 0.05)):
+            if r.random() < pr:
+                args.append(o)
+        if r.random() < 0.1:
+            args += ["--backup", r.choice(["numbered", "auto"])]
         args += ([files[0]["p"], "dst"] if single else ["-r", "src", "dst"])
-        yield {"fs": "tmpfs" if r.random() < 0.3 else "ext4", "spec": [{"p": "src", "k": "d"}] + files, "pre": pre,
+        yield {"xdev": r.random() < 0.15, "fs": "tmpfs" if r.random() < 0.3 else "ext4", "spec": [{"p": "src", "k": "d"}] + files, "pre": pre,
                "args": args, "single": single, "prior": prior, "driver": driver, "block": bname, "bsv": bsv,
                "workers": workers, "sched": r.choice(["os", "os", "pct", "jitter"]), "sseed": r.randrange(1 << 30)}
     if tier == "thorough":
@@ -121,18 +134,24 @@ def run_case(case):
     res = {"evals": [], "viol": [], "inconc": [], "counters": {}}
     with core.Sandbox(case["fs"], "c01") as sb:
         spec = [e for e in case["spec"] if not e.get("stamp")]
-        tree.materialize(sb.root, spec)
+        # cross-device cases: the sources live on the other filesystem and are named by absolute path
+        sroot = sb.other if case.get("xdev") else sb.root
+        tree.materialize(sroot, spec)
         for e in case["spec"]:
             if e.get("stamp"):
-                write_stamped(os.path.join(b(sb.root), b(e["p"])), e["size"], e["seed"])
+                write_stamped(os.path.join(b(sroot), b(e["p"])), e["size"], e["seed"])
         tree.materialize(sb.root, case["pre"])
         pre = tree.snapshot(sb.root)
+        args = list(case["args"])
+        if case.get("xdev"):
+            pre.update({k: v for k, v in tree.snapshot(sb.other).items() if k})
+            args = [(sb.other + "/" + a) if (a == "src" or a.startswith("src/")) else a for a in args]
         if case["sched"] == "os":
-            run = core.run_plain(core.xcp_argv(case["args"]), sb.root, timeout=600)
+            run = core.run_plain(core.xcp_argv(args), sb.root, timeout=600)
         else:
             plan = {"sched": case["sched"], "sched_seed": case["sseed"], "sched_d": 3, "log_mode": "none",
                     "wall_ms": 300000, "pct_horizon": 300}
-            run = core.run_xcp(sb, case["args"], plan)
+            run = core.run_xcp(sb, args, plan)
         if run.verdict != "exited":
             res["inconc"].append("run-" + run.verdict)
             return res
@@ -150,16 +169,16 @@ def run_case(case):
             extra = ""
             if frag in ("bytes",):
                 m = next(m for m in files if m["src"] in msg)
-                off, kind = model.first_diff(os.path.join(b(sb.root), b(m["src"])), os.path.join(b(sb.root), b(m["dst"])))
+                off, kind = model.first_diff(os.path.join(b(sroot), b(m["src"])), os.path.join(b(sb.root), b(m["dst"])))
                 extra = " first difference at offset %s (%s)" % (off, kind)
-            sig = "%s:block=%s:%s:%s" % (case["driver"], case["block"], "big" if case.get("big") else "std", frag)
+            sig = "%s:block=%s:%s:%s" % (case["driver"], case["block"], "big" if case.get("big") else "xdev" if case.get("xdev") else "std", frag)
             res["viol"].append({"sig": sig, "what": "exit 0 but " + msg + extra + " ; args=" + " ".join(case["args"])})
         specs = {e["p"]: e for e in case["spec"] if e["k"] == "f"}
         keys = set()
         for m in files:
             e = specs[m["src"]]
             keys.add((case["driver"], case["block"], case["workers"], size_class(e["size"], case["bsv"]), e.get("layout"),
-                      case["prior"], case["fs"]))
+                      case["prior"], case["fs"] + ("->other" if case.get("xdev") else "")))
         for k in keys:
             res["evals"].append({"key": list(k) if total > 0 else None})
         if not keys:
@@ -171,4 +190,6 @@ def run_case(case):
         res["counters"]["bytes-compared"] = total
         res["counters"]["files-compared"] = len(files)
         res["counters"]["sched:" + case["sched"]] = 1
+        if case.get("xdev"):
+            res["counters"]["cross-device-runs"] = 1
     return res
